@@ -26,6 +26,10 @@ def decl_specs(tier):
         for sbl in (2, 3):
             specs.append({'names': [c, 'i1'], 'wrapper': 'a', 'opts': {'search_buffer_length': sbl}})
             specs.append({'names': ['dn', c], 'wrapper': 'b', 'opts': {'search_buffer_length': sbl}})
+    for c in ('p_atn', 'p_shm1', 'p_shm2d', 'p_atl', 'p_shn'):
+        for w in 'ab':
+            specs.append({'names': ['i1', c], 'wrapper': w, 'opts': {'generate_for_unpack': False}})
+            specs.append({'names': [c, 'i1'], 'wrapper': w, 'opts': {'generate_for_pack': False, 'generate_for_unpack': False}})
     for c in ('i2', 'dn', 'sn', 'r1', 'b35', 'p_at3', 'rs', 'o1', 'su'):
         specs.append({'names': [c, 'i3'], 'wrapper': 'a', 'opts': {'generate_for_pack': False, 'generate_for_unpack': False}})
     return specs
